@@ -19,6 +19,7 @@ func All() map[string]sim.Property {
 	return map[string]sim.Property{
 		"C03": C03{},
 		"C04": C04{},
+		"C06": C06{},
 		"C07": C07{},
 	}
 }
